@@ -12,8 +12,8 @@ from common import bits2float, float2bits
 logging.disable(logging.WARNING)
 
 PROP = "EXTRA"
-PROPS_FILES = ["Pms/Props/Extra.lean", "Pms/Props/Filon.lean"]
-GENERATORS = ["extra", "filon"]
+PROPS_FILES = ["Pms/Props/Extra.lean", "Pms/Props/Filon.lean", "Pms/Props/WaveX.lean"]
+GENERATORS = ["extra", "filon", "wavex"]
 RULE = ("random decimal-grid arguments: 2-D line pairs (non-parallel, |D| ≥ 1e-3), triangles from random 2-D/3-D vertices in an open box, "
         "x ∈ [−1, 1]; each evaluation compares the regenerated Lean term (Float) with the real function and checks the theorem's statement on "
         "the real output (point on both lines; law of cosines; Heron = half cross product; P_2 / its 2-D variant; inertia tensor entries)")
@@ -110,7 +110,8 @@ def correspond(run):
         if np.abs(M - ref).max() > 1e-9 or np.abs(vec - np.array([ref[0, 0], ref[1, 1], ref[2, 2], ref[0, 1], ref[0, 2], ref[1, 2]])).max() > 1e-9:
             pf.append(({"kind": "inertia", "X": X.tolist(), "m": m_}, "moment_of_inertia differs from m/N Σ (r² δ_ij − x_i x_j) or from the order [xx, yy, zz, xy, xz, yz]"))
     filon_part(run, tdis, pf)
-    run.coverage["programs"] = 6
+    wavex_part(run, tdis, pf)
+    run.coverage["programs"] = 9
     run.coverage["disagreements_checked"] = len(tdis)
     broken = []
     if tdis:
@@ -190,6 +191,79 @@ def filon_part(run, tdis, pf):
             exact = 2 * (F(T) - F(0.0))
             if not abs(real - exact) <= 1e-7 * scale * (1 + 1e-6 / th ** 3):
                 pf.append((case, f"Filon_COS of the quadratic {a0} + {a1} t + {a2} t² at ω = {om}: FFT·π = {real!r}, 2∫₀ᵀ p(t) cos(ωt) dt = {exact!r}"))
+
+
+def parse_rows(o):
+    n, _, body = o.partition(" ")
+    rows = [tuple(int(x) for x in r.split(",")) for r in body.split(";")] if body.strip() else []
+    assert len(rows) == int(n), o[:200]
+    return rows
+
+
+def wavex_part(run, tdis, pf):
+    """wavevector3d / wavevector2d / continuousvector for EVERY numofq in a range: (a) the real routine against the driver's
+    interpretation of the regenerated loop nests (rows as a multiset + sorted key column, since argsort's permutation among equal
+    keys is numpy's choice; continuousvector row by row); (b) against the statement of the membership theorems, by brute force."""
+    import itertools
+    from PyMatterSim.utils import wavevector as wv
+    thorough = run.tier != "quick"
+    jobs = []
+    for name, k, top in (("wavevector3d", 3, 13 if thorough else 9), ("wavevector2d", 2, 40 if thorough else 18)):
+        for n in range(0, top + 1):
+            jobs.append(("sq", name, k, n, None))
+    for d in (1, 2, 3, 4):
+        for n in range(0, (13 if thorough else 8) if d < 4 else 4):
+            for pos in (False, True):
+                jobs.append(("cont", "continuousvector", d, n, pos))
+    ops = []
+    for kind, name, k, n, pos in jobs:
+        ops.append(f"wavex sq impl {name} {n}" if kind == "sq" else f"wavex cont impl {k} {n} {1 if pos else 0}")
+    outs = common.drive(ops)
+    for (kind, name, k, n, pos), o in zip(jobs, outs):
+        case = {"kind": name, "ndim": k, "numofq": n, "onlypositive": pos}
+        run.hist("routine", name)
+        run.count((name, k, n, pos), n >= 2)
+        if o == "bad-op":
+            raise common.Infra("driver rejected wavex")
+        try:
+            real = getattr(wv, name)(n) if kind == "sq" else wv.continuousvector(k, n, pos)
+            real = np.asarray(real)
+        except Exception as e:
+            if o != "error":
+                pf.append((case, f"{name}({'' if kind == 'sq' else str(k) + ', '}{n}{'' if kind == 'sq' else ', ' + str(pos)}) raised {type(e).__name__}: {e}"))
+            continue
+        if o in ("error", "no-routine"):
+            tdis.append((case, f"{name}: the model of the regenerated routine says {o}, the real routine returned shape {real.shape}"))
+            continue
+        model = parse_rows(o)
+        width = (k + 1) if kind == "sq" else k
+        if real.ndim != 2 or real.shape[1] != width:
+            pf.append((case, f"{name}: returned shape {real.shape}, expected (*, {width})"))
+            continue
+        rows = [tuple(int(x) for x in r) for r in real.tolist()]
+        if any(float(x) != int(x) for r in real.tolist() for x in r):
+            pf.append((case, f"{name}: non-integer entries"))
+            continue
+        if kind == "sq":
+            if sorted(rows) != sorted(model):
+                tdis.append((case, f"{name}({n}): rows differ from the regenerated model: real-only {sorted(set(rows) - set(model))[:4]}, model-only {sorted(set(model) - set(rows))[:4]}"))
+            want = sorted((sum(x * x for x in t),) + t for t in itertools.product(range(n), repeat=k)
+                          if any(t) and any(j * j == sum(x * x for x in t) for j in range(n)))
+            if sorted(rows) != want:
+                pf.append((case, f"{name}({n}): returned rows are not exactly the non-zero vectors of range({n})^{k} whose squared norm is one of 0², …, {n - 1}² "
+                                 f"(with that squared norm in front): unexpected {sorted(set(rows) - set(want))[:4]}, missing {sorted(set(want) - set(rows))[:4]}, "
+                                 f"{len(rows)} rows for {len(want)}"))
+            elif any(rows[i][0] > rows[i + 1][0] for i in range(len(rows) - 1)):
+                pf.append((case, f"{name}({n}): rows are not sorted by the squared norm"))
+        else:
+            if rows != model:
+                tdis.append((case, f"continuousvector({k}, {n}, {pos}): rows differ from the regenerated model ({len(rows)} vs {len(model)} rows)"))
+            h = n // 2
+            want = [t for t in itertools.product(range(-h, h), repeat=k) if any(t) and (not pos or min(t) >= 0)] if k in (2, 3) else []
+            if rows != want:
+                pf.append((case, f"continuousvector({k}, {n}, {pos}): returned rows are not exactly the non-zero integer vectors of [−{h}, {h})^{k}"
+                                 f"{' without negative components' if pos else ''} in loop order: {len(rows)} rows for {len(want)}; "
+                                 f"unexpected {sorted(set(rows) - set(want))[:4]}, missing {sorted(set(want) - set(rows))[:4]}"))
 
 
 def search(run, broken):
